@@ -92,13 +92,22 @@ func DistanceLineToLine(line1Start, line1End, line2Start, line2End geom.Coord) f
 	/**
 	 * Algorithm derived from http://softsurfer.com/Archive/algorithm_0106/algorithm_0106.htm
 	 */
-	a := VectorDot(line1Start, line1End, line1Start, line1End)
 	b := VectorDot(line1Start, line1End, line2Start, line2End)
 	c := VectorDot(line2Start, line2End, line2Start, line2End)
 	d := VectorDot(line1Start, line1End, line2Start, line1Start)
 	e := VectorDot(line2Start, line2End, line2Start, line1Start)
 
-	denom := a*c - b*b
+	// The squared sine of the angle between the segments, times a*c, is a*c - b*b.
+	// Computing it that way cancels catastrophically for nearly parallel
+	// segments (both products are close to |u|^2|v|^2), which made s and t
+	// meaningless and the result wrong by up to the length of a segment. The
+	// cross product n = u x v gives the same quantity, |n|^2, without that
+	// cancellation, and the parameters of the closest approach as
+	// s = ((C-A) x v).n / |n|^2 and t = ((C-A) x u).n / |n|^2.
+	ux, uy, uz := line1End[0]-line1Start[0], line1End[1]-line1Start[1], line1End[2]-line1Start[2]
+	vx, vy, vz := line2End[0]-line2Start[0], line2End[1]-line2Start[1], line2End[2]-line2Start[2]
+	nx, ny, nz := uy*vz-uz*vy, uz*vx-ux*vz, ux*vy-uy*vx
+	denom := nx*nx + ny*ny + nz*nz
 	if math.IsNaN(denom) {
 		panic("Ordinates must not be NaN")
 	}
@@ -117,8 +126,9 @@ func DistanceLineToLine(line1Start, line1End, line2Start, line2End geom.Coord) f
 			t = e / c
 		}
 	} else {
-		s = (b*e - c*d) / denom
-		t = (a*e - b*d) / denom
+		wx, wy, wz := line2Start[0]-line1Start[0], line2Start[1]-line1Start[1], line2Start[2]-line1Start[2]
+		s = ((wy*vz-wz*vy)*nx + (wz*vx-wx*vz)*ny + (wx*vy-wy*vx)*nz) / denom
+		t = ((wy*uz-wz*uy)*nx + (wz*ux-wx*uz)*ny + (wx*uy-wy*ux)*nz) / denom
 	}
 	if s < 0 || s > 1 || t < 0 || t > 1 {
 		/**
